@@ -195,3 +195,16 @@ M("C01", "header-end-match-without-leading-newline", [(RC, "        if (0==strnc
   "equivalent for files the library writes: pprint never ends a line with the bare text END (quotes/commas follow)", control=True)
 M("C01", "io-read-ensure-native-default", [("esutil/io.py", "    ensure_native = keys.get(\"ensure_native\", False)\n    verbose = keys.get(\"verbose\", False)\n\n    if header == \"only\":", "    ensure_native = keys.get(\"ensure_native\", rows is None and columns is None and fields is None and not header)\n    verbose = keys.get(\"verbose\", False)\n\n    if header == \"only\":")],
   "io.read converts full reads to native byte order by default")
+
+# ---- C04
+M("C04", "double-15-digits", [(RC, '	formats[NPY_DOUBLE] = "%.16g";', '	formats[NPY_DOUBLE] = "%.15g";')])
+M("C04", "float-6-digits", [(RC, '	formats[NPY_FLOAT] = "%.7g";', '	formats[NPY_FLOAT] = "%.6g";')])
+M("C04", "uint64-scanned-signed", [(RC, "	formats[NPY_UINT64] += NPY_UINT64_FMT;\n\n#ifdef NPY_INT128\n	formats[NPY_INT128] += NPY_INT128_FMT;", "	formats[NPY_UINT64] += NPY_INT64_FMT;\n\n#ifdef NPY_INT128\n	formats[NPY_INT128] += NPY_INT128_FMT;")],
+  "unsigned 64-bit printed/scanned with the signed format: values above 2^63 are written as negative numbers but scan back to the same bits, so the round trip the statement demands is unaffected", control=True)
+M("C04", "element-delim-omitted-2d", [(RC, "		if (el < (nel-1) ) {\n            fprintf(mFptr, \"%s\", mDelim.c_str());\n		}", "		if (el < (nel-1) && !(mNdim[fnum] > 1 && (el+1) % mDims[fnum][mNdim[fnum]-1] == 0 && mDelim == \" \")) {\n            fprintf(mFptr, \"%s\", mDelim.c_str());\n		}")],
+  "space-delimited 2-d sub-arrays: no delimiter between rows of the sub-array")
+M("C04", "header-keeps-byteorder-for-big-endian", [(SF, "            tdef = newd[1]\n            tdef = tdef[1:]\n", "            tdef = newd[1]\n            tdef = tdef[1:] if tdef[0] != '>' else tdef\n")])
+M("C04", "padded-blank-skip-also-tabs", [(RC, "            while (c == ' ') {\n                c = fgetc(mFptr);\n            }", "            while (c == ' ' || (c == '\\t' && mDelim[0] != '\\t')) {\n                c = fgetc(mFptr);\n            }")],
+  "equivalent for files the library writes (no tab padding)", control=True)
+M("C04", "int8-scanned-as-char-width", [(RC, "	formats[NPY_INT8] += NPY_INT8_FMT;\n	formats[NPY_UINT8] += NPY_UINT8_FMT;\n	\n	formats[NPY_INT16]", "	formats[NPY_INT8] += NPY_INT8_FMT;\n	formats[NPY_UINT8] += NPY_INT16_FMT;\n	\n	formats[NPY_INT16]")],
+  "unsigned bytes scanned with the 16-bit format: writes two bytes into a one-byte field (next field or heap)")
